@@ -151,7 +151,8 @@ pub fn eval(it: &Item, wf: bool, text_override: Option<String>, rng: &mut Rng) -
     let mut c = base("eval", &Loc::None, false);
     c["it"] = it.to_json();
     c["wf"] = json!(wf);
-    let body = text_override.unwrap_or_else(|| render_stmt(rng, it, true));
+    // (a command is one line: no line breaks inside the instruction text)
+    let body = text_override.unwrap_or_else(|| render_stmt(rng, it, true).replace('\n', " "));
     Cmd { text: format!("{} {}", name, body), c }
 }
 
@@ -829,7 +830,19 @@ fn sessions_scenario(rng: &mut Rng) -> Vec<Session> {
     sc!("straight", true, [mov(Loc::Addr(0x3002), 0xF025, rng), simple("continue", rng), simple("registers", rng), simple("continue", rng), simple("step", rng), simple("exit", rng)]);
     sc!("halthigh", false, [simple("continue", rng), simple("registers", rng), simple("continue", rng), simple("step", rng), stepinto(Some(2), rng), simple("registers", rng)]);
 
+    // eval of label-taking instructions whose label lies at and beyond the reach of the field (CALL: 10 bits, JSR: 11, the rest: 9)
+    // (only forms that must be REFUSED are evaluated for CALL/JSR: what an accepted one writes as link value is left open by C15)
+    sc!("fargap", true, [eval(&pc_lab("call", 0, "far600"), true, None, rng), simple("registers", rng), eval(&pc_lab("call", 0, "far1100"), true, None, rng), simple("registers", rng),
+                         with_loc("goto", Loc::Addr(0x3000), rng), eval(&pc_lab("jsr", 0, "far1100"), true, None, rng), simple("registers", rng),
+                         with_loc("goto", Loc::Addr(0x3000), rng), eval(&pc_lab("ld", 1, "far600"), true, None, rng), eval(&pc_lab("lea", 2, "near200"), true, None, rng),
+                         eval(&pc_lab("st", 1, "near500"), true, None, rng), eval(&pc_lab("jsr", 0, "far1100"), true, None, rng), simple("registers", rng), simple("exit", rng)]);
+    sc!("fargap", true, [with_loc("goto", lab("far1100", 0), rng), eval(&pc_lab("call", 0, "near500"), true, None, rng), simple("registers", rng),
+                         with_loc("goto", lab("far1100", 0), rng), eval(&pc_lab("jsr", 0, "start_"), true, None, rng), simple("registers", rng),
+                         with_loc("goto", lab("far1100", 0), rng), eval(&pc_lab("call", 0, "start_"), true, None, rng), eval(&pc_lab("sti", 3, "nolabel"), true, None, rng),
+                         eval(&pc_lab("ldi", 3, "nolabel"), true, None, rng), simple("registers", rng), simple("exit", rng)]);
     let mut cat = catalogue();
+    cat.push(p("fargap", true, b"", vec![add_i(0, 0, 1).lab("start_"), halt(), blkw(198), add_i(1, 1, 1).lab("near200"), blkw(299), add_i(2, 2, 1).lab("near500"), blkw(99),
+                                        add_i(3, 3, 1).lab("far600"), blkw(499), add_i(4, 4, 1).lab("far1100"), plain("rets")]));
     // programs used by scenarios only (they do not terminate on their own, or only make sense with their script)
     cat.push(p("selfcall", true, b"", vec![add_i(0, 0, 1), pc_lab("call", 0, "deeper").lab("deeper"), halt()]));
     cat.push(p("selfbr", false, b"", vec![and_i(0, 0, 0), br_lab(2, "spin").lab("spin"), halt()]));
